@@ -18,10 +18,13 @@ Definition aux_name (i : N) : string :=
 (* ---------------------------------------------------------------- formulas *)
 Inductive binop : Type := OAnd | OOr | OImp | OIff | OXor.
 
-(* Boolean past/future LTL: the input language of `translate` restricted to
-   Boolean variables and constants *)
+(* Boolean past/future LTL: the input language of `translate` over Boolean
+   variables, constants and opaque arithmetic comparisons.  The environment
+   gives the truth value of a comparison under the key of its text. *)
 Inductive form : Type :=
 | FVar (v : string)
+| FAtom (a : string)       (* a comparison of arithmetic terms, e.g. ( x < 2 ):
+                              opaque to the translation, identified by its text *)
 | FConst (b : bool)
 | FNot (f : form)
 | FBin (o : binop) (f g : form)
@@ -39,6 +42,7 @@ Inductive form : Type :=
    operators appear only when `until=False` passes them through *)
 Inductive tform : Type :=
 | TVar (v : string)
+| TAtom (a : string)
 | TConst (b : bool)
 | TNot (f : tform)
 | TBin (o : binop) (f g : tform)
@@ -53,7 +57,7 @@ Definition Fprev (strong : bool) (f : form) : form :=
 
 Fixpoint past_only (f : form) : bool :=
   match f with
-  | FVar _ | FConst _ => true
+  | FVar _ | FAtom _ | FConst _ => true
   | FNot f | FPrevW f | FPrevS f | FHist f | FOnce f => past_only f
   | FBin _ f g | FSince f g => past_only f && past_only g
   | FIte c a b => past_only c && past_only a && past_only b
@@ -63,6 +67,7 @@ Fixpoint past_only (f : form) : bool :=
 Fixpoint vars (f : form) : list string :=
   match f with
   | FVar v => [v]
+  | FAtom a => [a]
   | FConst _ => []
   | FNot f | FPrevW f | FPrevS f | FHist f | FOnce f
   | FAlways f | FEvent f => vars f
@@ -73,7 +78,7 @@ Fixpoint vars (f : form) : list string :=
 (* no prime and no temporal operator: a state predicate *)
 Fixpoint state_formula (f : tform) : bool :=
   match f with
-  | TVar _ | TConst _ => true
+  | TVar _ | TAtom _ | TConst _ => true
   | TNot f => state_formula f
   | TBin _ f g => state_formula f && state_formula g
   | TIte c a b => state_formula c && state_formula a && state_formula b
@@ -97,6 +102,7 @@ Definition bop (o : binop) (a b : bool) : bool :=
 Fixpoint evalA (cur nxt : env) (f : tform) : bool :=
   match f with
   | TVar v => cur v
+  | TAtom a => cur a
   | TConst b => b
   | TNot f => negb (evalA cur nxt f)
   | TBin o f g => bop o (evalA cur nxt f) (evalA cur nxt g)
@@ -113,6 +119,7 @@ Definition eval (s : env) (f : tform) : bool := evalA s s f.
 Fixpoint sem (f : form) (sigma : nat -> env) (i : nat) {struct f} : bool :=
   match f with
   | FVar v => sigma i v
+  | FAtom a => sigma i a
   | FConst b => b
   | FNot f => negb (sem f sigma i)
   | FBin o f g => bop o (sem f sigma i) (sem g sigma i)
@@ -150,6 +157,7 @@ Definition binop_eqb (a b : binop) : bool :=
 Fixpoint tform_eqb (a b : tform) : bool :=
   match a, b with
   | TVar x, TVar y => String.eqb x y
+  | TAtom x, TAtom y => String.eqb x y
   | TConst x, TConst y => eqb x y
   | TNot x, TNot y => tform_eqb x y
   | TBin o x1 x2, TBin p y1 y2 =>
